@@ -4,7 +4,7 @@ TIER=${1:-quick}
 cd /verif
 for id in $(python3 -c "import json;print(' '.join(c['property_id'] for c in json.load(open('MANIFEST.json'))['checks']))"); do
   t0=$(date +%s)
-  python3 run.py $id --tier $TIER > /var/tmp/run_all_$id.log 2>&1
+  python3 run.py $id --tier $TIER > /var/tmp/run_all_${TIER}_$id.log 2>&1
   rc=$?
-  echo "$id exit=$rc wall=$(( $(date +%s) - t0 ))s $(grep -c 'VIOLATION' /var/tmp/run_all_$id.log) violations"
+  echo "$id exit=$rc wall=$(( $(date +%s) - t0 ))s $(grep -c 'VIOLATION' /var/tmp/run_all_${TIER}_$id.log) violations"
 done
